@@ -306,25 +306,43 @@ def audit_sources():
     return bad
 
 
+def theorem_modules(prop_id):
+    """(module, [theorem names]) for every Lean file under Props/ and Lemmas/ that states theorems named `<id>_…`.
+    Props/<id>.lean is always included (it must exist)."""
+    out = []
+    for sub in ('Props', 'Lemmas'):
+        d = os.path.join(LEAN_DIR, 'PyTRS', sub)
+        if not os.path.isdir(d):
+            continue
+        for f in sorted(os.listdir(d)):
+            if not f.endswith('.lean'):
+                continue
+            src = strip_lean_comments(open(os.path.join(d, f), encoding='utf-8').read())
+            names = re.findall(r'^\s*theorem\s+(' + re.escape(prop_id) + r'_[A-Za-z0-9_\.\']*)', src, re.M)
+            if names or (sub == 'Props' and f == f'{prop_id}.lean'):
+                out.append((f'PyTRS.{sub}.{f[:-5]}', names))
+    return out
+
+
 def theorem_names(prop_id):
-    p = os.path.join(LEAN_DIR, 'PyTRS', 'Props', f'{prop_id}.lean')
-    if not os.path.exists(p):
-        return []
-    src = strip_lean_comments(open(p, encoding='utf-8').read())
-    return re.findall(r'^\s*theorem\s+([A-Za-z0-9_\.\']+)', src, re.M)
+    return [n for _, ns in theorem_modules(prop_id) for n in ns]
 
 
 def audit_axioms(prop_id):
-    """Build Props/<id> and return {theorem: [axioms]}; raises InfraError on tool trouble,
-    returns (ok, info) where ok False means a proof obligation no longer checks."""
-    names = theorem_names(prop_id)
-    mod = f'PyTRS.Props.{prop_id}'
-    p = subprocess.run(['lake', 'build', mod], cwd=LEAN_DIR, capture_output=True, text=True)
+    """Build every module stating `<id>_…` theorems and return {theorem: [axioms]}.
+    Returns (ok, info); ok False means a proof obligation no longer checks."""
+    mods = theorem_modules(prop_id)
+    names = [n for _, ns in mods for n in ns]
+    modnames = [m for m, _ in mods]
+    if not os.path.exists(os.path.join(LEAN_DIR, 'PyTRS', 'Props', f'{prop_id}.lean')):
+        return False, {'log': f'PyTRS/Props/{prop_id}.lean is missing', 'theorems': names}
+    p = subprocess.run(['lake', 'build'] + modnames, cwd=LEAN_DIR, capture_output=True, text=True)
     if p.returncode != 0:
         return False, {'log': (p.stdout + p.stderr)[-4000:], 'theorems': names}
     audit = os.path.join(LEAN_DIR, '.lake', f'audit_{prop_id}.lean')
     with open(audit, 'w') as f:
-        f.write(f'import {mod}\n')
+        for m in modnames:
+            f.write(f'import {m}\n')
         for n in names:
             f.write(f'#print axioms PyTRS.{n}\n')
     p = subprocess.run(['lake', 'env', 'lean', audit], cwd=LEAN_DIR, capture_output=True, text=True)
@@ -333,7 +351,7 @@ def audit_axioms(prop_id):
         return False, {'log': out[-4000:], 'theorems': names}
     axioms = {}
     for m in re.finditer(r"'PyTRS\.([^']+)' (depends on axioms: \[([^\]]*)\]|does not depend on any axioms)", out):
-        axioms[m.group(1)] = [a.strip() for a in (m.group(3) or '').split(',') if a.strip()]
+        axioms[m.group(1)] = [a.strip() for a in (m.group(3) or '').replace('\n', ' ').split(',') if a.strip()]
     missing = [n for n in names if n not in axioms]
     if missing:
         raise InfraError(f'axiom audit did not report on {missing}: {out[-500:]}')
@@ -341,7 +359,7 @@ def audit_axioms(prop_id):
         extra = [a for a in ax if a not in ALLOWED_AXIOMS]
         if extra:
             raise InfraError(f'theorem {n} depends on non-standard axioms {extra}')
-    return True, {'axioms': axioms, 'theorems': names}
+    return True, {'axioms': axioms, 'theorems': names, 'modules': modnames}
 
 
 # ----------------------------------------------------------------------------- reporting
